@@ -37,6 +37,12 @@ type HealthCheck struct {
 func NewHealthCheck(consumer HealthCheckConsumer, endpoint *url.URL, interval time.Duration, timeout time.Duration) *HealthCheck {
 	ctx, cancel := context.WithCancel(context.Background())
 
+	if interval <= 0 {
+		// time.NewTicker panics on a non-positive interval, and a panic in the
+		// health check goroutine would take the whole proxy down.
+		interval = DefaultHealthCheckInterval
+	}
+
 	hc := &HealthCheck{
 		consumer: consumer,
 		endpoint: endpoint,
